@@ -24,6 +24,13 @@ def call(fn, *a, **kw):
         return False, ex
 
 
+def argform(inp, n=2):
+    """which of n equivalent spellings of the call to use (keyword / positional, list / tuple): a function of the
+    input alone, so that a replay makes the same call"""
+    import zlib
+    return zlib.crc32(json.dumps(inp, sort_keys=True).encode("utf-8")) % n
+
+
 def res_of(ok, v, proj=lambda x: x):
     if ok:
         return {"ok": True, "v": proj(v)}
@@ -338,7 +345,8 @@ def Master(inp, tab, ev):
     rn = W.master(tab, seed, inp["net"], prf)
     ref_strings(tab, rn)
     with PrfTap(prf) as tap:
-        ok, v = call(PrvKeyNode.master_key, seed, inp["net"] == "test")
+        ok, v = call(PrvKeyNode.master_key, seed, inp["net"] == "test") if argform(inp) else \
+            call(PrvKeyNode.master_key, bip39_seed=seed, testnet=inp["net"] == "test")
     ev["q"] = queries_json(tap)
     ev["res"] = res_of(ok, v, node_view)
 
@@ -354,7 +362,7 @@ def _ckd_event(inp, tab, ev):
     par = py_node(inp["par"])
     ev["par_before"] = {"node": node_json(par), "nch": len(getattr(par, "children", ()))}
     with PrfTap(prf) as tap:
-        ok, v = call(par.ckd, i)
+        ok, v = call(par.ckd, i) if argform(inp) else call(par.ckd, index=i)
     ev["q"] = queries_json(tap)
     ev["par_after"] = {"node": node_json(par), "nch": len(getattr(par, "children", ())) - (1 if ok else 0)}
     if inp.get("drop"):
@@ -387,7 +395,7 @@ def DerivePath(inp, tab, ev):
     ref_strings(tab, rn)
     root = py_node(inp["root"])
     with PrfTap(prf) as tap:
-        ok, v = call(root.derive_path, path)
+        ok, v = call(root.derive_path, path) if argform(inp) else call(root.derive_path, index_list=path)
     ev["q"] = []
     if inp.get("drop"):
         import gc
@@ -781,7 +789,7 @@ def Seed(inp, tab, ev):
     from btc_hd_wallet import bip39
     m, p = untext(inp["m"]), untext(inp["p"])
     _seed_oracles(tab, m, p)
-    ok, v = call(bip39.bip39_seed_from_mnemonic, m, p)
+    ok, v = call(bip39.bip39_seed_from_mnemonic, m, p) if argform(inp) else call(bip39.bip39_seed_from_mnemonic, mnemonic=m, password=p)
     ev["res"] = res_of(ok, v, B)
 
 
@@ -1052,7 +1060,9 @@ def Generate(inp, tab, ev):
 
     def go():
         w = _paper_wallet(inp)
-        data = w.generate(account=inp["account"], interval=(st, en))
+        f = argform(inp, 3)
+        data = w.generate(account=inp["account"], interval=(st, en)) if f == 0 else w.generate(inp["account"], (st, en)) if f == 1 else \
+            w.generate(interval=(st, en), account=inp["account"])
         out = {"mnemonic": T(data["MASTER"]["mnemonic"] or ""), "password": T(data["MASTER"]["password"] or "")}
         for b in SLIP:
             blk = data[b.upper()]
